@@ -734,7 +734,6 @@ impl<'a> NtpPacket<'a> {
                         .authenticated
                         .iter()
                         .chain(input.efdata.encrypted.iter())
-                        .take(MAX_COOKIES)
                         .filter_map(|f| match f {
                             ExtensionField::NtsCookiePlaceholder { cookie_length } => {
                                 let new_cookie = keyset.encode_cookie(cookie);
@@ -754,6 +753,10 @@ impl<'a> NtpPacket<'a> {
                             }
                             _ => None,
                         })
+                        // limit the number of cookies handed out, not the number of fields
+                        // looked at: the request's own cookie then always yields a fresh one,
+                        // so the answer always carries an NTS authenticator field
+                        .take(MAX_COOKIES)
                         .collect(),
                     authenticated: input
                         .efdata
@@ -779,7 +782,6 @@ impl<'a> NtpPacket<'a> {
                         .authenticated
                         .iter()
                         .chain(input.efdata.encrypted.iter())
-                        .take(MAX_COOKIES)
                         .filter_map(|f| match f {
                             ExtensionField::NtsCookiePlaceholder { cookie_length } => {
                                 let new_cookie = keyset.encode_cookie(cookie);
@@ -799,6 +801,10 @@ impl<'a> NtpPacket<'a> {
                             }
                             _ => None,
                         })
+                        // limit the number of cookies handed out, not the number of fields
+                        // looked at: the request's own cookie then always yields a fresh one,
+                        // so the answer always carries an NTS authenticator field
+                        .take(MAX_COOKIES)
                         .collect(),
                     authenticated: input
                         .efdata
